@@ -171,3 +171,14 @@ def fill(claim, NA):
 		  "vectors summing to one within rounding; Markov thresholds, explicit lists, steady state.",
 		  "Trusted: Lean kernel + 3 axioms; harness. RNG: that NumPy's samplers realise their documented distributions and that empirical frequencies converge cannot be exhibited "
 		  "by an executable model (partial claim, see DESIGN.md); SciPy distribution objects; FFT convolution (1e-9). Variance additivity of the convolution is checked numerically only.")
+
+	claim('C07',
+		  "Theorems (Props/C07.lean) about the model of the Chen-Zheng recursion on the code's integer grid: stage_argmin (the level chosen for every stage is a first minimiser of that "
+		  "stage's cost row over the whole grid), eval_is_opt_with_fixed_S (evaluation mode with the optimiser's own level reproduces the optimiser's rows), reported_cost_def, "
+		  "one_stage_chat + one_stage_newsvendor (N = 1: C_1(y) = sum_d f_d (h (y-d)+ + p (d-y)+) for every grid point, including positions below the grid - the linear left tail "
+		  "is exact). Tie: optimiser vs the exact model on the grid bounds and per-stage lead-time-demand tables re-derived from SciPy (S* exactly / by objective on ties, cost 1e-9), "
+		  "expected_cost of arbitrary vectors vs model evaluation mode; independent top-down expected-cost evaluator (within the documented truncation error) for returned and "
+		  "neighbouring level vectors (+-2 per stage), one stage = Poisson newsvendor, renumbering; normal demand coherence and Shang-Song bounds (labelled tests).",
+		  "Trusted: Lean kernel + 3 axioms; harness; SciPy lead-time-demand distributions (inputs). Open: that the nested expectation equals the long-run expected cost of the stochastic "
+		  "system (Clark-Scarf) is not formalised - cross-checked numerically by the top-down evaluator; Shang-Song bracket checked per instance; continuous (normal) grid with "
+		  "nearest-point lookup is not modelled.")
